@@ -7,6 +7,7 @@ package main
 
 import (
 	"encoding/json"
+	"errors"
 	"fmt"
 	"math"
 	"net/http"
@@ -30,7 +31,9 @@ func (c *c14Counting) PasswordAuthenticate(u string, p []byte) (bool, error) {
 	c.Calls++
 	return c.inner.PasswordAuthenticate(u, p)
 }
-func (c *c14Counting) UpdateStorage(s simplestorage.SimpleStore) error { return c.inner.UpdateStorage(s) }
+func (c *c14Counting) UpdateStorage(s simplestorage.SimpleStore) error {
+	return c.inner.UpdateStorage(s)
+}
 
 type c14PwSys struct {
 	burst  int
@@ -39,10 +42,10 @@ type c14PwSys struct {
 	cnt    *c14Counting
 	routes []string // paths that reach the backend with basic-auth
 	// reference token bucket
-	tokens  float64
-	last    time.Time
-	start   time.Time
-	nCalls  int
+	tokens float64
+	last   time.Time
+	start  time.Time
+	nCalls int
 }
 
 var c14RouteCache = map[string][]string{}
@@ -358,60 +361,75 @@ func c14ConfiguredLimits(c *vfeng.Ctx) {
 		burst int
 		rate  int
 	}{{20, 1}, {12, 2}, {150, 20}, {10, 1}} {
-		w, err := vfLoadedWorld(map[string]string{"password_attempt_global_burst_limit": fmt.Sprint(cfg.burst), "password_attempt_global_rate_limit": fmt.Sprint(cfg.rate)})
-		if err != nil {
-			c.Res.HarnessErr = "loading a generated configuration failed: " + err.Error()
-			return
-		}
-		cnt := &c14Counting{inner: c14Reject{}}
-		w.state.passwordChecker = cnt
-		pt := map[string]interface{}{"part": "configured-limits", "burst": cfg.burst, "rate": cfg.rate}
-		send := func(n int) (n429 int) {
-			for i := 0; i < n; i++ {
-				user := fmt.Sprintf("user%d", i)
-				var r *vfResp
-				if i%2 == 0 {
-					r = w.Do(vfReq{Method: "POST", Path: "/api/v0/login", Form: url.Values{"username": {user}, "password": {"guess"}}}.Build())
-				} else {
-					r = w.Do(vfReq{Method: "POST", Path: "/api/v0/login", HasBasic: true, Basic: [2]string{user, "guess"}}.Build())
-				}
-				if r.Code == http.StatusTooManyRequests {
-					n429++
-				}
+		// a backend that answers "no", and one that answers with an error (directory
+		// overloaded, command failing): a guess costs one token and one lookup either way
+		for _, backend := range []string{"rejects", "errors"} {
+			w, err := vfLoadedWorld(map[string]string{"password_attempt_global_burst_limit": fmt.Sprint(cfg.burst), "password_attempt_global_rate_limit": fmt.Sprint(cfg.rate)})
+			if err != nil {
+				c.Res.HarnessErr = "loading a generated configuration failed: " + err.Error()
+				return
 			}
-			return
-		}
-		n := cfg.burst + 12
-		n429 := send(n)
-		c.Eval(int64(n))
-		calls1 := cnt.Calls
-		vclock.Advance(3 * time.Second)
-		send(cfg.rate*3 + 5)
-		c.Eval(int64(cfg.rate*3 + 5))
-		calls2 := cnt.Calls - calls1
-		w.Close()
-		switch {
-		case calls1 != cfg.burst || n429 != n-cfg.burst:
-			c.Violate("C14|configured-burst-not-in-force|loadVerifyConfigFile", fmt.Sprintf("configuration file says burst %d rate %d/s: of %d simultaneous guesses %d reached the backend and %d were answered 429 (want %d and %d)", cfg.burst, cfg.rate, n, calls1, n429, cfg.burst, n-cfg.burst), pt)
-		case calls2 != cfg.rate*3:
-			c.Violate("C14|configured-rate-not-in-force|loadVerifyConfigFile", fmt.Sprintf("configuration file says burst %d rate %d/s: 3 s after the bucket was emptied %d guesses reached the backend (want %d)", cfg.burst, cfg.rate, calls2, cfg.rate*3), pt)
-		default:
-			c.Class(fmt.Sprintf("configured-limits|burst=%d|rate=%d|in-force", cfg.burst, cfg.rate), pt)
+			cnt := &c14Counting{inner: c14Reject{}}
+			if backend == "errors" {
+				cnt.inner = c14Erroring{}
+			}
+			w.state.passwordChecker = cnt
+			pt := map[string]interface{}{"part": "configured-limits", "burst": cfg.burst, "rate": cfg.rate, "backend": backend}
+			send := func(n int) (n429 int) {
+				for i := 0; i < n; i++ {
+					user := fmt.Sprintf("user%d", i)
+					var r *vfResp
+					if i%2 == 0 {
+						r = w.Do(vfReq{Method: "POST", Path: "/api/v0/login", Form: url.Values{"username": {user}, "password": {"guess"}}}.Build())
+					} else {
+						r = w.Do(vfReq{Method: "POST", Path: "/api/v0/login", HasBasic: true, Basic: [2]string{user, "guess"}}.Build())
+					}
+					if r.Code == http.StatusTooManyRequests {
+						n429++
+					}
+				}
+				return
+			}
+			n := cfg.burst + 12
+			n429 := send(n)
+			c.Eval(int64(n))
+			calls1 := cnt.Calls
+			vclock.Advance(3 * time.Second)
+			send(cfg.rate*3 + 5)
+			c.Eval(int64(cfg.rate*3 + 5))
+			calls2 := cnt.Calls - calls1
+			w.Close()
+			switch {
+			case calls1 != cfg.burst || n429 != n-cfg.burst:
+				c.Violate("C14|configured-burst-not-in-force|loadVerifyConfigFile"+map[string]string{"rejects": "", "errors": "|backend-errors"}[backend], fmt.Sprintf("backend %s; configuration file says burst %d rate %d/s: of %d simultaneous guesses %d reached the backend and %d were answered 429 (want %d and %d)", backend, cfg.burst, cfg.rate, n, calls1, n429, cfg.burst, n-cfg.burst), pt)
+			case calls2 != cfg.rate*3:
+				c.Violate("C14|configured-rate-not-in-force|loadVerifyConfigFile", fmt.Sprintf("configuration file says burst %d rate %d/s: 3 s after the bucket was emptied %d guesses reached the backend (want %d)", cfg.burst, cfg.rate, calls2, cfg.rate*3), pt)
+			default:
+				c.Class(fmt.Sprintf("configured-limits|burst=%d|rate=%d|backend-%s|in-force", cfg.burst, cfg.rate, backend), pt)
+			}
 		}
 	}
 }
+
+// c14Erroring is a password backend that cannot give a verdict.
+type c14Erroring struct{}
+
+func (c14Erroring) PasswordAuthenticate(u string, p []byte) (bool, error) {
+	return false, errors.New("backend unavailable")
+}
+func (c14Erroring) UpdateStorage(s simplestorage.SimpleStore) error { return nil }
 
 // c14Reject is a password backend that accepts nobody.
 type c14Reject struct{}
 
 func (c14Reject) PasswordAuthenticate(u string, p []byte) (bool, error) { return false, nil }
-func (c14Reject) UpdateStorage(s simplestorage.SimpleStore) error      { return nil }
+func (c14Reject) UpdateStorage(s simplestorage.SimpleStore) error       { return nil }
 
 func init() {
 	vfRegister(&vfeng.Check{
-		ID:    "C14",
-		Level: "model_checking",
-		Rule:  "(c) configuration files written by the repository's generator with burst/rate set to (20,1) (12,2) (150,20) (10,1), loaded with the real loadVerifyConfigFile: exactly `burst` of burst+12 simultaneous guesses over both entry points reach the backend, the rest get 429, and 3 s later exactly 3 x rate more; (a) BFS with canonical-state deduplication (state = token-bucket level) over {attempt via login form for 3 users right/wrong, attempt via basic-auth on EVERY route found to reach the password backend (probed with a counting backend), tick 0/400 ms/1 s/10 s} for burst in {10,12} x rate in {1,2}/s, depth 7 (thorough 9) with a five-attempt macro operation so that draining a burst of 10-12 fits the bound, against a reference token bucket: backend invocations <= burst + rate x elapsed at every prefix, an attempt with an empty bucket is answered 429 without lookup, both entry points share the bucket; (b) BFS over {wrong guess, right guess, four / five wrong guesses 2 s apart, tick 1 s/2 s/31 s/1 h/24 h, one pass of the real background clean-up loop} on the real TOTP verification: no evaluation within 2 s of the previous one, 5 consecutive evaluated failures within a minute start a lock-out (> 0, not shrinking from round to round)",
+		ID:          "C14",
+		Level:       "model_checking",
+		Rule:        "(c) configuration files written by the repository's generator with burst/rate set to (20,1) (12,2) (150,20) (10,1), loaded with the real loadVerifyConfigFile, with a backend that rejects and one that answers with an error: exactly `burst` of burst+12 simultaneous guesses over both entry points reach the backend, the rest get 429, and 3 s later exactly 3 x rate more; (a) BFS with canonical-state deduplication (state = token-bucket level) over {attempt via login form for 3 users right/wrong, attempt via basic-auth on EVERY route found to reach the password backend (probed with a counting backend), tick 0/400 ms/1 s/10 s} for burst in {10,12} x rate in {1,2}/s, depth 7 (thorough 9) with a five-attempt macro operation so that draining a burst of 10-12 fits the bound, against a reference token bucket: backend invocations <= burst + rate x elapsed at every prefix, an attempt with an empty bucket is answered 429 without lookup, both entry points share the bucket; (b) BFS over {wrong guess, right guess, four / five wrong guesses 2 s apart, tick 1 s/2 s/31 s/1 h/24 h, one pass of the real background clean-up loop} on the real TOTP verification: no evaluation within 2 s of the previous one, 5 consecutive evaluated failures within a minute start a lock-out (> 0, not shrinking from round to round)",
 		Assumptions: []string{"the limiter's clock (golang.org/x/time/rate) is virtualised by the same AST rewrite", "the TOTP lock-out oracle is phrased on the statement: failures spread over more than a minute only assert the 2-second rule"},
 		Bounds: func(tier string) map[string]interface{} {
 			return map[string]interface{}{"password_depth": map[string]int{"quick": 7, "thorough": 9}[tier], "totp_depth": map[string]int{"quick": 7, "thorough": 9}[tier], "macro_ops": "burst5 = five immediate attempts, fail5 = five wrong guesses 2 s apart (each step judged individually)"}
